@@ -43,3 +43,64 @@ def check_C22(tier, seed):
     res.notes.update({"ok_by_decoration": bydecor, "mc_instances": len(small), "mc_states": mc["distinct"], "mc_complete": mc["complete"]})
     res.assumptions += ["Sem.tla's @fold (materialise everything, then filter on the count) states the language semantics"]
     return res
+
+# ------------------------------------------------------------------ C23
+def check_C23(tier, seed):
+    import meta
+    res = Result("C23", tier, seed, "model_checking")
+    wd = workdir("C23")
+    base = universe.semantic_universe(tier, seed + 2300)
+    base = base[: (250 if tier == "quick" else 5000)]
+    cases = meta.meta_cases(base, seed)
+    # one flat instance list for the engine
+    flat = []
+    for c in cases:
+        c["idx"] = []
+        for inst in c["insts"]:
+            x = dict(inst); x["id"] = len(flat) + 1; flat.append(x); c["idx"].append(len(flat) - 1)
+    obs = observe(flat, wd, "", seed)
+    jcases = []; skipped = {}; bykind = {}
+    for c in cases:
+        os_ = [obs[k] for k in c["idx"]]
+        bad = [o for o in os_ if o["compile"]["t"] != "ok" or o.get("exec", {}).get("t") != "ok"]
+        panics = [o for o in os_ if o["compile"]["t"] == "panic" or o.get("exec", {}).get("t") == "panic"]
+        if panics:
+            o = panics[0]; inst = flat[o["id"] - 1]
+            res.violation(f"panic on a transformed query ({c['kind']}): {(o['compile'].get('err') or o.get('exec', {}).get('err', ''))[:160]} for {inst['text']!r}", text="panic", tags=props.inst_tags(inst), replay=props.replay_case(inst, o)); continue
+        if bad or any(len(o["exec"]["rows"]) > 40 for o in os_):
+            k = "rejected_or_large:" + c["kind"]; skipped[k] = skipped.get(k, 0) + 1; continue
+        jc = {"id": len(jcases) + 1, "rel": c["rel"], "kind": c["kind"], "ren": c["insts"][-1].get("ren", []),
+              "insts": [{k: flat[j][k] for k in ("schema", "g", "q", "args")} for j in c["idx"]],
+              "obs": [{"args": o["args"], "rows": o["exec"]["rows"]} for o in os_], "texts": [flat[j]["text"] for j in c["idx"]]}
+        jcases.append(jc)
+    nsh = max(1, min(4, len(jcases) // 800))
+    import concurrent.futures as cf
+    def one(s):
+        p = os.path.join(wd, f"meta.{s}.ndjson"); write_ndjson(p, jcases[s::nsh])
+        return tlc("JudgeMeta", "JudgeMeta.cfg", {"INST": p}, wd, workers=max(2, NCPU // nsh), timeout=3000)
+    verd = {}
+    with cf.ThreadPoolExecutor(nsh) as ex:
+        for r in ex.map(one, range(nsh)):
+            res.add_tlc(r)
+            for iid, cls, rest in parse_verdicts(r["out"]): verd.setdefault(iid, set()).add(cls)
+    missing = [c["id"] for c in jcases if len(verd.get(c["id"], ())) < 2]
+    if missing: raise ToolError(f"JudgeMeta: no verdict for cases {missing[:8]}")
+    nontrivial = 0
+    for c in jcases:
+        v = verd[c["id"]]
+        bykind[c["kind"]] = bykind.get(c["kind"], 0) + 1
+        differ = json.dumps(c["obs"][0]["rows"], sort_keys=True) != json.dumps(c["obs"][-1]["rows"], sort_keys=True)
+        if differ: nontrivial += 1
+        if "real.bad" in v:
+            res.violation(f"metamorphic relation '{c['kind']}' ({c['rel']}) does not hold on the real engine: {c['texts'][0]!r} vs {c['texts'][-1]!r}", text="meta " + c["kind"],
+                          replay={"relation": c["rel"], "kind": c["kind"], "instances": c["insts"], "texts": c["texts"], "rows": [o["rows"] for o in c["obs"]]})
+        elif "sem.bad" in v:
+            res.drift.append(f"relation '{c['kind']}' fails on Sem itself for {c['texts'][-1][:120]!r} (specification or transformation side condition)")
+        elif differ and c["obs"][0]["rows"]: res.sample({"relation": c["kind"], "base": c["texts"][0], "transformed": c["texts"][-1], "rows": [len(o["rows"]) for o in c["obs"]]}, cap=4)
+    res.cov["evaluations"] = len(jcases)
+    res.cov["distinct_nontrivial"] = nontrivial
+    res.cov["rule"] = ("gen/meta.py applies each applicable transformation (add a filter outside folds; deepen a recursion; make an edge @optional; edge parameter <-> filter; '=' <-> one_of [x]; filter / negated filter / no filter outside "
+                       "optional and fold scopes; rename outputs and tags; reverse sibling properties / edges) to the instances of the semantic universe; TLC checks the predicted relation (sub-bag, super-bag, equal bag, equal after renaming, "
+                       "partition) on Sem's rows and on the real engine's rows. evaluations = cases judged; distinct non-trivial = cases where the transformation actually changed the rows")
+    res.notes.update({"cases_by_kind": bykind, "skipped": skipped})
+    return res
